@@ -206,7 +206,10 @@ func (g *gen) value(t int, e wire.Entry) interface{} {
 			if e.N == "Version" {
 				return 0
 			}
-			return g.r.Intn(10)<<4 | g.r.Intn(10)
+			if m := g.r.Intn(10); m > 0 { // a zero base has one spelling (0x00)
+				return m<<4 | g.r.Intn(10)
+			}
+			return 0
 		}
 		return g.u(8)
 	case "u16":
@@ -252,6 +255,9 @@ func (g *gen) value(t int, e wire.Entry) interface{} {
 		return g.octets(g.pick([]int{0, 1, 5, 30, 255, 256, 700}))
 	case "hex", "b64", "b32", "raw":
 		b := g.blob()
+		if t == 50 && e.N == "NextDomain" && g.r.Intn(5) != 0 { // SHA-1, the only NSEC3 hash in use
+			b = g.octets(20)
+		}
 		if e.Sz != "" {
 			if (t == 50 && e.N == "NextDomain") || t == 55 {
 				if len(b) == 0 {
